@@ -166,7 +166,48 @@ def rename_side_params(root: str, files: List[str] = None):
         _rewrite(root, rel, lambda t, s_: T().visit(t))
 
 
+def de_morgan(root: str, files: List[str] = None):
+    """Every `if`/`while` test that is an and/or is rewritten through De Morgan: `a and b` -> `not (not a or not b)`, `a or b` -> `not (not a and not b)`
+    (same evaluation order, same short-circuit, same truthiness of the test)."""
+    def flip(e):
+        vals = [ast.UnaryOp(op=ast.Not(), operand=v) for v in e.values]
+        inner = ast.BoolOp(op=ast.Or() if isinstance(e.op, ast.And) else ast.And(), values=vals)
+        return ast.UnaryOp(op=ast.Not(), operand=inner)
+
+    class T(ast.NodeTransformer):
+        def visit_If(self, node):
+            self.generic_visit(node)
+            if isinstance(node.test, ast.BoolOp):
+                node.test = flip(node.test)
+            return node
+
+        def visit_While(self, node):
+            self.generic_visit(node)
+            if isinstance(node.test, ast.BoolOp):
+                node.test = flip(node.test)
+            return node
+    for rel in files or ENGINE_FILES:
+        _rewrite(root, rel, lambda t, s_: T().visit(t))
+
+
+def hoist_guard_clauses(root: str, files: List[str] = None):
+    """A function whose body ENDS with `if c: <block>` (no else) becomes `if not c: return` + the block, dedented (guard clause).  Only for
+    functions without a return annotation value use... applies when the trailing block falls off the end exactly like the original."""
+    class T(ast.NodeTransformer):
+        def visit_FunctionDef(self, fn):
+            self.generic_visit(fn)
+            if fn.body and isinstance(fn.body[-1], ast.If) and not fn.body[-1].orelse and not any(isinstance(x, (ast.Yield, ast.YieldFrom)) for x in ast.walk(fn)):
+                last = fn.body[-1]
+                guard = ast.If(test=ast.UnaryOp(op=ast.Not(), operand=last.test), body=[ast.Return(value=None)], orelse=[])
+                fn.body = fn.body[:-1] + [guard] + last.body
+            return fn
+    for rel in files or ENGINE_FILES:
+        _rewrite(root, rel, lambda t, s_: T().visit(t))
+
+
 GENERIC_BENIGN = {
+    "de-morgan": de_morgan,
+    "guard-clauses": hoist_guard_clauses,
     "rename-side-params": rename_side_params,
     "reemit": reemit,
     "insert-logging": insert_logging,
